@@ -274,7 +274,7 @@ def main():
                     {'name': 'tlc-extra-X02', 'path': '/verif/spec/Qryn.tla', 'serves_properties': ['C01', 'C04', 'C06', 'C16', 'C17'],
                      'kind_free_text': 'extra check beyond the list: end-to-end composition, acknowledged data is readable through every endpoint of its signal (python3 tools/check.py X02 quick|thorough); part of the thorough tier of C04'},
                     {'name': 'tlc-extra-X07', 'path': '/verif/spec/query/TempoSearch.tla', 'serves_properties': ['C06', 'C11', 'C13', 'C15'],
-                     'kind_free_text': 'extra check beyond the list: content of the Tempo v1 read API - /api/search tags/minDuration/maxDuration/limit, tags, tag values, which spans /api/traces/{id} returns (python3 tools/check.py X07 quick|thorough)'},
+                     'kind_free_text': 'extra check beyond the list: content of the Tempo v1 read API - /api/search tags/minDuration/maxDuration/limit, tags, tag values, which spans /api/traces/{id} returns (python3 tools/check.py X07 quick|thorough); part of the thorough tier of C11'},
                     {'name': 'tlc-extra-X06', 'path': '/verif/spec/query/LabelIndex.tla', 'serves_properties': ['C13', 'C15', 'C17'],
                      'kind_free_text': 'extra check beyond the list: content of the Loki / Prometheus label, label-values and series endpoints (python3 tools/check.py X06 quick|thorough); part of the thorough tier of C17'},
                     {'name': 'tlc-extra-X05', 'path': '/verif/spec/query/ProfSeries.tla', 'serves_properties': ['C13', 'C16', 'C17'],
